@@ -172,6 +172,12 @@ var fzRecursive = []struct{ name, decls, sig string }{
 	{"invalid-array", "type RS struct {\n\tA [1]RS\n}\ntype RD struct {\n\tA [1]RD\n}", "(*RS) *RD"},
 	{"named-slice-self", "type RL []RL\ntype RS struct{ L RL }\ntype RD struct{ L RL }", "(*RS) *RD"},
 	{"named-ptr-self", "type RP *RP\ntype RS struct{ P RP }\ntype RD struct{ P RP }", "(*RS) *RD"},
+	// cyclic pointer types as OPERANDS and additional arguments (legal Go; the copy cannot be done, the tool must say so and stop)
+	{"operand-ptr-self-src", "type RP *RP\ntype RD struct{ V int }", "(RP) *RD"},
+	{"operand-ptr-self-dst", "type RP *RP\ntype RS struct{ V int }", "(*RS) RP"},
+	{"extra-arg-ptr-self", "type RP *RP\ntype RS struct{ V int }\ntype RD struct{ V int }", "(*RS, RP) *RD"},
+	{"extra-arg-ptr-mutual", "type Ping *Pong\ntype Pong *Ping\ntype RS struct{ V int }\ntype RD struct{ V int }", "(*RS, Ping) *RD"},
+	{"operand-ptr-mutual", "type Ping *Pong\ntype Pong *Ping\ntype RD struct{ V int }", "(Ping) *RD"},
 	{"generic-self", "type RG[T any] struct {\n\tV    T\n\tNext *RG[T]\n}\ntype RS struct{ G RG[int] }\ntype RD struct{ G RG[int64] }", "(*RS) *RD"},
 	{"blank-fields", "type RS struct {\n\t_ int\n\t_ string\n\tV int\n}\ntype RD struct {\n\t_ int\n\t_ string\n\tV int\n}", "(*RS) *RD"},
 	{"duplicate-fields", "type RS struct {\n\tV int\n\tV string\n}\ntype RD struct {\n\tV int\n\tV string\n\tv int\n}", "(*RS) *RD"},
